@@ -859,16 +859,23 @@ def child_payload(m):
 def run_children(specs):
     """Hashes of the same specs computed in fresh interpreters under different PYTHONHASHSEEDs."""
     from harness.common.paths import REPO_SRC, VERIF
-    outs = {}
-    for hs in HASHSEEDS:
+    outs, procs = {}, {}
+    for hs in HASHSEEDS:     # started together, they are independent interpreters
         env = dict(os.environ)
         env["PYTHONHASHSEED"] = hs
         env["PYTHONPATH"] = f"{VERIF}:{REPO_SRC}"
-        p = subprocess.run([sys.executable, "-m", "harness.corr.c12", "child"], input=json.dumps(specs), text=True,
-                           capture_output=True, env=env, cwd=str(VERIF), timeout=600)
+        procs[hs] = subprocess.Popen([sys.executable, "-m", "harness.corr.c12", "child"], stdin=subprocess.PIPE,
+                                     stdout=subprocess.PIPE, stderr=subprocess.PIPE, text=True, env=env, cwd=str(VERIF))
+    for hs, p in procs.items():
+        try:
+            out, err = p.communicate(json.dumps(specs), timeout=900)
+        except subprocess.TimeoutExpired:
+            for q in procs.values():
+                q.kill()
+            raise RuntimeError(f"child interpreter (PYTHONHASHSEED={hs}) did not finish")
         if p.returncode != 0:
-            raise RuntimeError(f"child interpreter failed (PYTHONHASHSEED={hs}): {p.stderr[-800:]}")
-        outs[hs] = json.loads(p.stdout.strip().splitlines()[-1])
+            raise RuntimeError(f"child interpreter failed (PYTHONHASHSEED={hs}): {err[-800:]}")
+        outs[hs] = json.loads(out.strip().splitlines()[-1])
     return outs
 
 
